@@ -184,17 +184,22 @@ func (s *Session) Broadcast(sender *Participant, protoMsg hwebsocket.ProtoMsg) {
 }
 
 func (s *Session) BroadcastTo(sender *Participant, protoMsg hwebsocket.ProtoMsg, participantIds ...uint32) {
-	participants := s.GetParticipantsByIDs(participantIds...)
-	isParticipantHandled := make(map[uint32]struct{}, len(participantIds))
-
 	msg, err := hwebsocket.MsgFromProto(protoMsg)
 	if err != nil {
 		logs.WithTag("message", protoMsg).Debug(err)
 		return
 	}
 
-	for _, p := range participants {
-		if p == sender {
+	// The recipients are looked up and served under the participant lock, as
+	// in Broadcast: a participant that has left the session meanwhile (it may
+	// already be in another one) must not be handed the message.
+	s.participantMutex.RLock()
+	defer s.participantMutex.RUnlock()
+
+	isParticipantHandled := make(map[uint32]struct{}, len(participantIds))
+	for _, id := range participantIds {
+		p, ok := s.participants[id]
+		if !ok || p == sender {
 			continue
 		}
 
